@@ -203,7 +203,21 @@ static int iv_fd_epoll_poll(struct iv_state *st,
 
 	run_events = 0;
 	for (i = 0; i < ret; i++) {
-		if (batch[i].data.ptr != st) {
+		if (batch[i].data.ptr == st) {
+			run_events = 1;
+		} else if (batch[i].data.ptr == &st->time) {
+			uint64_t cnt;
+
+			/*
+			 * This thread created its timerfd before another
+			 * thread's timerfd_create() failed and made us all
+			 * fall back to this poll method.  Just consume
+			 * the expiry.
+			 */
+			if (read(st->u.epoll.timer_fd, &cnt, sizeof(cnt)) < 0) {
+				/* nothing to be done */
+			}
+		} else {
 			struct iv_fd_ *fd;
 			uint32_t events;
 
@@ -218,8 +232,6 @@ static int iv_fd_epoll_poll(struct iv_state *st,
 
 			if (events & (EPOLLERR | EPOLLHUP))
 				iv_fd_make_ready(active, fd, MASKERR);
-		} else {
-			run_events = 1;
 		}
 	}
 
